@@ -1,0 +1,116 @@
+//go:build verif
+
+// Package verifclients holds lemma clients of the deductive verifier in /verif that fix the concrete sequence
+// types for the generic functions of package sequtils (kept apart from sequtils so that the packages under test
+// do not form an import cycle with their own in-package tests). Only compiled with -tags verif.
+package verifclients
+
+import (
+	"github.com/biogo/biogo/feat"
+	"github.com/biogo/biogo/seq/alignment"
+	"github.com/biogo/biogo/seq/linear"
+	"github.com/biogo/biogo/seq/sequtils"
+)
+
+// Truncate, Join, Stitch and Compose are generic over interfaces; they are verified through these clients. The
+// verifier resolves every interface call inside the real bodies statically and inlines them, so what is proved is
+// the real code specialised to the client's type.
+
+// @ func verifLemmaTruncateLinear
+// @   property C06
+// @   lemma
+// @   requires src != nil && dst != nil
+// @   ensures [error-iff] (result != nil) <==> !(start >= old(src.Offset) && end <= old(src.Offset) + old(len(src.Seq)) && (start <= end || (old(src.Conform) != 0 && end >= old(src.Offset) && start <= old(src.Offset) + old(len(src.Seq)))))
+// @   ensures [linear]    result == nil && start <= end ==> len(dst.Seq) == end - start && dst.Offset == start && dst.Conform == 0 && forall k int :: 0 <= k && k < end - start ==> dst.Seq[k] == old(src.Seq[start - src.Offset + k])
+// @   ensures [circular-head] result == nil && start > end ==> len(dst.Seq) == old(len(src.Seq)) - (start - old(src.Offset)) + (end - old(src.Offset)) && dst.Offset == start && dst.Conform == 0
+// @   ensures [circular-a] result == nil && start > end ==> forall k int :: 0 <= k && k < old(len(src.Seq)) - (start - old(src.Offset)) ==> dst.Seq[k] == old(src.Seq[start - src.Offset + k])
+// @   ensures [circular-b] result == nil && start > end ==> forall k int :: 0 <= k && k < end - old(src.Offset) ==> dst.Seq[old(len(src.Seq)) - (start - old(src.Offset)) + k] == old(src.Seq[k])
+// @   ensures [independent] result == nil && dst != src ==> (fresh(dst.Seq) || len(dst.Seq) == 0) && src.Seq == old(src.Seq) && src.Offset == old(src.Offset) && forall k int :: 0 <= k && k < len(src.Seq) ==> src.Seq[k] == old(src.Seq[k])
+// @   ensures [rejected]  result != nil ==> dst.Seq == old(dst.Seq) && dst.Offset == old(dst.Offset) && src.Seq == old(src.Seq)
+func verifLemmaTruncateLinear(dst, src *linear.Seq, start, end int) error {
+	return sequtils.Truncate(dst, src, start, end)
+}
+
+// Join: concatenation in the requested order; prepending moves the offset; circular operands are rejected.
+// @ func verifLemmaJoinLinear
+// @   property C06
+// @   lemma
+// @   requires src != nil && dst != nil && dst != src && (where == 1 || where == 2)
+// @   ensures [circular]  (result != nil) <==> (old(dst.Conform) > 0 || old(src.Conform) > 0)
+// @   ensures [prepend]   result == nil && where == 1 ==> len(dst.Seq) == old(len(src.Seq)) + old(len(dst.Seq)) && dst.Offset == -old(len(src.Seq))
+// @   ensures [prepend-a] result == nil && where == 1 ==> forall k int :: 0 <= k && k < old(len(src.Seq)) ==> dst.Seq[k] == old(src.Seq[k])
+// @   ensures [prepend-b] result == nil && where == 1 ==> forall k int :: 0 <= k && k < old(len(dst.Seq)) ==> dst.Seq[old(len(src.Seq)) + k] == old(dst.Seq[k])
+// @   ensures [append]    result == nil && where == 2 ==> len(dst.Seq) == old(len(src.Seq)) + old(len(dst.Seq)) && dst.Offset == old(dst.Offset)
+// @   ensures [append-a]  result == nil && where == 2 ==> forall k int :: 0 <= k && k < old(len(dst.Seq)) ==> dst.Seq[k] == old(dst.Seq[k])
+// @   ensures [append-b]  result == nil && where == 2 ==> forall k int :: 0 <= k && k < old(len(src.Seq)) ==> dst.Seq[old(len(dst.Seq)) + k] == old(src.Seq[k])
+// @   ensures [source]    src.Seq == old(src.Seq) && forall k int :: 0 <= k && k < len(src.Seq) ==> src.Seq[k] == old(src.Seq[k])
+func verifLemmaJoinLinear(dst, src *linear.Seq, where int) error {
+	return sequtils.Join(dst, src, where)
+}
+
+// ---- the same contracts on quality-carrying sequences (*linear.QSeq) ----
+// @ func verifLemmaTruncateQLinear
+// @   property C06
+// @   lemma
+// @   requires src != nil && dst != nil
+// @   ensures [error-iff] (result != nil) <==> !(start >= old(src.Offset) && end <= old(src.Offset) + old(len(src.Seq)) && (start <= end || (old(src.Conform) != 0 && end >= old(src.Offset) && start <= old(src.Offset) + old(len(src.Seq)))))
+// @   ensures [linear]    result == nil && start <= end ==> len(dst.Seq) == end - start && dst.Offset == start && dst.Conform == 0 && forall k int :: 0 <= k && k < end - start ==> dst.Seq[k] == old(src.Seq[start - src.Offset + k])
+// @   ensures [circular-head] result == nil && start > end ==> len(dst.Seq) == old(len(src.Seq)) - (start - old(src.Offset)) + (end - old(src.Offset)) && dst.Offset == start && dst.Conform == 0
+// @   ensures [circular-a] result == nil && start > end ==> forall k int :: 0 <= k && k < old(len(src.Seq)) - (start - old(src.Offset)) ==> dst.Seq[k] == old(src.Seq[start - src.Offset + k])
+// @   ensures [circular-b] result == nil && start > end ==> forall k int :: 0 <= k && k < end - old(src.Offset) ==> dst.Seq[old(len(src.Seq)) - (start - old(src.Offset)) + k] == old(src.Seq[k])
+// @   ensures [independent] result == nil && dst != src ==> (fresh(dst.Seq) || len(dst.Seq) == 0) && src.Seq == old(src.Seq) && src.Offset == old(src.Offset) && forall k int :: 0 <= k && k < len(src.Seq) ==> src.Seq[k] == old(src.Seq[k])
+// @   ensures [rejected]  result != nil ==> dst.Seq == old(dst.Seq) && dst.Offset == old(dst.Offset) && src.Seq == old(src.Seq)
+func verifLemmaTruncateQLinear(dst, src *linear.QSeq, start, end int) error {
+	return sequtils.Truncate(dst, src, start, end)
+}
+
+// Join on quality-carrying sequences.
+// @ func verifLemmaJoinQLinear
+// @   property C06
+// @   lemma
+// @   requires src != nil && dst != nil && dst != src && (where == 1 || where == 2)
+// @   ensures [circular]  (result != nil) <==> (old(dst.Conform) > 0 || old(src.Conform) > 0)
+// @   ensures [prepend]   result == nil && where == 1 ==> len(dst.Seq) == old(len(src.Seq)) + old(len(dst.Seq)) && dst.Offset == -old(len(src.Seq))
+// @   ensures [prepend-a] result == nil && where == 1 ==> forall k int :: 0 <= k && k < old(len(src.Seq)) ==> dst.Seq[k] == old(src.Seq[k])
+// @   ensures [prepend-b] result == nil && where == 1 ==> forall k int :: 0 <= k && k < old(len(dst.Seq)) ==> dst.Seq[old(len(src.Seq)) + k] == old(dst.Seq[k])
+// @   ensures [append]    result == nil && where == 2 ==> len(dst.Seq) == old(len(src.Seq)) + old(len(dst.Seq)) && dst.Offset == old(dst.Offset)
+// @   ensures [append-a]  result == nil && where == 2 ==> forall k int :: 0 <= k && k < old(len(dst.Seq)) ==> dst.Seq[k] == old(dst.Seq[k])
+// @   ensures [append-b]  result == nil && where == 2 ==> forall k int :: 0 <= k && k < old(len(src.Seq)) ==> dst.Seq[old(len(dst.Seq)) + k] == old(src.Seq[k])
+// @   ensures [source]    src.Seq == old(src.Seq) && forall k int :: 0 <= k && k < len(src.Seq) ==> src.Seq[k] == old(src.Seq[k])
+func verifLemmaJoinQLinear(dst, src *linear.QSeq, where int) error {
+	return sequtils.Join(dst, src, where)
+}
+
+// @ func verifLemmaStitchLinear
+// @   property C06
+// @   lemma
+// @   requires src != nil && dst != nil && fs != nil
+// @   ensures [linear] result == nil ==> dst.Offset == 0 && dst.Conform == 0
+// @   ensures [independent] dst != src ==> src.Seq == old(src.Seq) && src.Offset == old(src.Offset) && forall k int :: 0 <= k && k < len(src.Seq) ==> src.Seq[k] == old(src.Seq[k])
+// @   ensures [fresh] result == nil ==> fresh(dst.Seq) || len(dst.Seq) == 0
+func verifLemmaStitchLinear(dst, src *linear.Seq, fs feat.Set) error {
+	return sequtils.Stitch(dst, src, fs)
+}
+
+// @ func verifLemmaComposeLinear
+// @   property C06
+// @   lemma
+// @   requires src != nil && dst != nil && fs != nil && src.Alpha != nil && (implements(src.Alpha, alphabet.Complementor) ==> allocated(tabArr(src.Alpha)))
+// @   ensures [linear] result == nil ==> dst.Offset == 0 && dst.Conform == 0
+// @   ensures [independent] dst != src ==> src.Seq == old(src.Seq) && src.Offset == old(src.Offset) && forall k int :: 0 <= k && k < len(src.Seq) ==> src.Seq[k] == old(src.Seq[k])
+// @   ensures [fresh] result == nil ==> fresh(dst.Seq) || len(dst.Seq) == 0
+func verifLemmaComposeLinear(dst, src *linear.Seq, fs feat.Set) error {
+	return sequtils.Compose(dst, src, fs)
+}
+
+// ---- Truncate on a column-stored alignment (C07): exactly the requested columns are kept ----
+// @ func verifLemmaTruncateAlignment
+// @   property C07
+// @   lemma
+// @   requires src != nil && dst != nil && len(src.Seq) > 0
+// @   ensures [error-iff] (result != nil) <==> !(start >= old(src.Offset) && end <= old(src.Offset) + old(len(src.Seq)) && (start <= end || (old(src.Conform) != 0 && end >= old(src.Offset) && start <= old(src.Offset) + old(len(src.Seq)))))
+// @   ensures [columns]   result == nil && start <= end ==> len(dst.Seq) == end - start && dst.Offset == start && dst.Conform == 0 && forall k int :: 0 <= k && k < end - start ==> dst.Seq[k] == old(src.Seq[start - src.Offset + k])
+// @   ensures [rejected]  result != nil ==> dst.Seq == old(dst.Seq) && dst.Offset == old(dst.Offset) && src.Seq == old(src.Seq)
+func verifLemmaTruncateAlignment(dst, src *alignment.Seq, start, end int) error {
+	return sequtils.Truncate(dst, src, start, end)
+}
